@@ -428,6 +428,9 @@ def run(ck: Check, prog: Program) -> None:
     #      absent marker — `data: null` is data, not the absence of data
     from . import c06 as _c06x
     _c06x._presence_by_identity(ck, _c06x.model_program(prog))
+    from . import borrow
+    borrow(ck, prog, 'C01', {'EMPTY-BATCH'}, 'batches made only of notifications return nothing')
+    borrow(ck, prog, 'C08', {'RELATE-STRICT'}, 'the caller obtains the value: an answer with the request\'s own id is accepted')
     # (e) the function is actually run, once: the bound method is invoked exactly once and, on the async side, what it returned is
     #     awaited whenever it is awaitable (decided on the returned object)
     from .dfacts import method_call_facts
